@@ -43,6 +43,10 @@ inductive Eff where
   | popClearN (k : Nat)
   /-- `throw`: hand a value to the error behaviour of frame `idx` -/
   | throwTo (idx : Nat) (v : Val)
+  /-- `context.suspend(ms)`: one clock read, then the context sleeps until `now + ms` -/
+  | suspend (ms : Nat)
+  /-- `context.terminate(true)` on the running context itself -/
+  | terminateSelf
 
 /-- new frames take the bases of the old ones -/
 def withBases : List Frame → List Frame → List Frame
@@ -194,6 +198,10 @@ def applyEff (e : Eff) (m : M) : M :=
     match throwCtx m.ctx m.err idx v with
     | (c, true) => { m with ctx := c }
     | (c, false) => ({ m with ctx := c }).log Diag.runtime_ErrorMessage
+  | .suspend ms =>
+    let (t, m1) := m.readClock
+    { m1 with ctx := { m1.ctx with suspended := true, wakeup := t + ms } }
+  | .terminateSelf => { m with ctx := { m.ctx with terminate := true } }
 
 def applyEffs : List Eff → M → M
   | [], m => m
@@ -204,7 +212,11 @@ def applyEffs : List Eff → M → M
 abbrev OpRes := M × List Eff × Val
 
 def pure' (m : M) (v : Val) : Option OpRes := some (m, [], v)
-def frame' (m : M) (f : Frame) : Option OpRes := some (m, [.pushFrame f], .nil)
+/-- `runtime.current_value_scope()`: the namespace selected by the innermost enclosing `with … do` -/
+def curNs (m : M) : Nat := match m.ctx.top? with | some f => f.globals | none => 0
+
+/-- push a frame that runs in the namespace of the scope it is started from -/
+def frame' (m : M) (f : Frame) : Option OpRes := some (m, [.pushFrame { f with globals := curNs m }], .nil)
 
 /-- `throw_any` -/
 def throwAny (m : M) (v : Val) : Option OpRes :=
@@ -228,6 +240,7 @@ def nularOp (n : Name) (m : M) : Option OpRes :=
   else if n == n!"profilenamespace" then pure' m (.ns 3)
   else if n == n!"nil" then pure' m .nil
   else if n == n!"cansuspend" then pure' m (.bool m.ctx.canSuspend)
+  else if n == n!"scriptnull" then pure' m (.script 0)
   else if n == n!"currentnamespace" then pure' m (.ns (match m.top? with | some f => f.globals | none => 0))
   else none
 
@@ -356,6 +369,35 @@ def uop_comment (r : Val) (m : M) : Option OpRes :=
   | .str _ => pure' m .nil
   | _ => none
 
+/-- milliseconds of a duration given in seconds (`duration_cast<milliseconds>` truncates) -/
+def msOf (d : Dec) : Nat := (Dec.trunc (Dec.mul d (Dec.ofNat 1000))).toNat
+
+def uop_sleep (r : Val) (m : M) : Option OpRes :=
+  match r with
+  | .num d =>
+    if !m.ctx.canSuspend then pure' (m.log Diag.runtime_SuspensionInUnscheduledEnvironment) .nil
+    else some (m, [.suspend (msOf d)], .nil)
+  | _ => none
+
+def uop_scriptdone (r : Val) (m : M) : Option OpRes :=
+  match r with
+  | .script id => pure' m (.bool (!m.alive.contains id))
+  | _ => none
+
+def uop_terminate (r : Val) (m : M) : Option OpRes :=
+  match r with
+  | .script id =>
+    if !m.alive.contains id then pure' (m.log Diag.runtime_ScriptHandleAlreadyFinished) .nil
+    else if m.termReq.contains id then pure' (m.log Diag.runtime_ScriptHandleAlreadyTerminated) .nil
+    else if id == m.ctx.id then some ({ m with termReq := m.termReq ++ [id] }, [.terminateSelf], .nil)
+    else pure' { m with termReq := m.termReq ++ [id] } .nil
+  | _ => none
+
+def uop_waituntil (r : Val) (m : M) : Option OpRes :=
+  match r with
+  | .code c => frame' m (mkFrame c [] (some (.waitUntil 0)))
+  | _ => none
+
 def unaryOp (n : Name) (r : Val) (m : M) : Option OpRes :=
   if n == n!"call" then uop_call r m
   else if n == n!"count" then uop_count r m
@@ -376,6 +418,10 @@ def unaryOp (n : Name) (r : Val) (m : M) : Option OpRes :=
   else if n == n!"default" then uop_default r m
   else if n == n!"with" then uop_with r m
   else if n == n!"comment" then uop_comment r m
+  else if n == n!"sleep" then uop_sleep r m
+  else if n == n!"scriptdone" || n == n!"isnull" then uop_scriptdone r m
+  else if n == n!"terminate" then uop_terminate r m
+  else if n == n!"waituntil" then uop_waituntil r m
   else none
 
 /-! ### binary operators -/
@@ -488,7 +534,7 @@ def bop_exitwith (l r : Val) (m : M) : Option OpRes :=
   | .ifv b, .code c, some f =>
     if b then
       -- current_frame().die(): seek to end, suppress the exit behaviour; then push the block
-      some (m, [.setTop { f with pc := f.code.length + 1, die := true }, .pushFrame (mkFrame c)], .nil)
+      some (m, [.setTop { f with pc := f.code.length + 1, die := true }, .pushFrame { mkFrame c with globals := f.globals }], .nil)
     else pure' m .nil
   | _, _, _ => none
 
@@ -503,7 +549,7 @@ def bop_do (l r : Val) (m : M) : Option OpRes :=
     if skip then pure' m .nil
     else frame' m (mkFrame body [(lower var, .num frm)] (some (.forB var to step)))
   | .sw _ _ _ _, .code body => frame' m (mkFrame body [(switchMagic, l)] (some (.switchB false)))
-  | .withv id, .code body => frame' m (mkFrame body [] none none id)
+  | .withv id, .code body => some (m, [.pushFrame (mkFrame body [] none none id)], .nil)
   | _, _ => none
 
 def bop_from (l r : Val) (m : M) : Option OpRes :=
@@ -635,6 +681,17 @@ def bop_setvariable (l r : Val) (m : M) : Option OpRes :=
       | _ => pure' (m.log Diag.runtime_ExpectedArrayTypeMissmatch) .nil
   | _, _ => none
 
+/-- `spawn`: a new scheduled context with one frame over the code; it shares nothing with the
+    spawning context but `_this` and gets `_thisScript` -/
+def bop_spawn (l r : Val) (m : M) : Option OpRes :=
+  match r with
+  | .code c =>
+    let id := m.nextCtx
+    let f : Frame := mkFrame c [(n!"_thisscript", .script id), (n!"_this", l)]
+    let ctx : Ctx := { frames := [f], canSuspend := true, weak := true, id := id }
+    pure' { m with spawned := m.spawned ++ [ctx], nextCtx := id + 1, alive := m.alive ++ [id] } (.script id)
+  | _ => none
+
 def binaryOp (n : Name) (l r : Val) (m : M) : Option OpRes :=
   if n == n!"+" then bop__2b l r m
   else if n == n!"-" then bop__2d l r m
@@ -669,6 +726,7 @@ def binaryOp (n : Name) (l r : Val) (m : M) : Option OpRes :=
   else if n == n!"throw" then bop_throw l r m
   else if n == n!"getvariable" then bop_getvariable l r m
   else if n == n!"setvariable" then bop_setvariable l r m
+  else if n == n!"spawn" then bop_spawn l r m
   else none
 
 /-- run an operator result: the stack effects are applied to the context the operator started
